@@ -99,8 +99,14 @@ def orderedFiles (mode : String) (p : Pkg) : List PFile :=
   let sorted := if mode == "js" then sortFiles names else (sortFiles names).reverse
   sorted.filterMap fun n => p.files.find? (·.name == n)
 
+/-- variables with an initialiser -/
 def fileVars (f : PFile) : List (String × List String) :=
   f.decls.filterMap fun | .v n d => some (n, d) | _ => none
+
+/-- all variables in declaration order; one without initialiser is a node of the dependency graph too (it is
+    "initialised" at its place in the order, Go specification, section Package initialization) -/
+def fileAllVars (f : PFile) : List (String × List String) :=
+  f.decls.filterMap fun | .v n d => some (n, d) | .z n => some (n, []) | _ => none
 
 def countInits (f : PFile) : Nat := (f.decls.filter fun | .i => true | _ => false).length
 def hasMain (f : PFile) : Bool := f.decls.any fun | .m => true | _ => false
@@ -111,9 +117,10 @@ def item (tok : String) : List String := [tok ++ "<", tok ++ ">"]
     file order, then the init functions file by file, then main.main -/
 def pkgTrace (mode : String) (p : Pkg) : List String :=
   let files := orderedFiles mode p
-  let vars := files.flatMap fileVars
+  let vars := files.flatMap fileAllVars
+  let inited := (files.flatMap fileVars).map (·.1)
   let depsOf := fun v => match vars.find? (·.1 == v) with | some e => e.2 | none => []
-  let order := specVarOrder depsOf vars.length (vars.map (·.1))
+  let order := (specVarOrder depsOf vars.length (vars.map (·.1))).filter inited.contains
   let vs := order.flatMap fun v => item s!"V:{p.path}.{v}"
   let is := files.flatMap fun f => (List.range (countInits f)).flatMap fun k => item s!"I:{p.path}/{f.name}#{k}"
   let mn := if files.any hasMain then item "M" else []
@@ -171,7 +178,7 @@ def allowed (mode : String) (ps : List Pkg) (tr : List String) : String :=
     | some qp => (pkgItems qp).all fun a => (pkgItems p).all fun b => before tr (a ++ ">") (b ++ "<")
   -- (d) a variable comes after the variables its initialiser depends on
   let varDeps := ps.all fun p => p.files.all fun f => (fileVars f).all fun v =>
-    v.2.all fun d => d == v.1 || before tr s!"V:{p.path}.{d}>" s!"V:{p.path}.{v.1}<"
+    v.2.all fun d => d == v.1 || !((p.files.flatMap fileVars).any (·.1 == d)) || before tr s!"V:{p.path}.{d}>" s!"V:{p.path}.{v.1}<"
   -- (e) variables before init functions before main.main
   let phases := ps.all fun p =>
     let vs := (pkgItems p).filter (·.startsWith "V:")
